@@ -17,19 +17,38 @@ type readSet struct {
 	unknown string // non-empty: footprint could not be bounded (reason)
 }
 
+// readsOf / ifaceReads are the entry points; footprints are computed under one lock (they are memoised and cheap),
+// the recursive workers below run with the lock held.
 func (eng *Engine) readsOf(fn *ssa.Function) *readSet {
-	eng.mu.Lock()
+	eng.readsMu.Lock()
+	defer eng.readsMu.Unlock()
+	return eng.readsOfL(fn).snapshot()
+}
+
+func (eng *Engine) ifaceReads(it types.Type, m *types.Func) *readSet {
+	eng.readsMu.Lock()
+	defer eng.readsMu.Unlock()
+	return eng.ifaceReadsL(it, m).snapshot()
+}
+
+func (r *readSet) snapshot() *readSet {
+	c := &readSet{names: make(map[string]bool, len(r.names)), unknown: r.unknown}
+	for k := range r.names {
+		c.names[k] = true
+	}
+	return c
+}
+
+func (eng *Engine) readsOfL(fn *ssa.Function) *readSet {
 	if eng.readsMemo == nil {
 		eng.readsMemo = map[*ssa.Function]*readSet{}
 	}
 	if r, ok := eng.readsMemo[fn]; ok {
-		eng.mu.Unlock()
 		return r
 	}
 	// provisional entry against recursion
 	rs := &readSet{names: map[string]bool{}}
 	eng.readsMemo[fn] = rs
-	eng.mu.Unlock()
 	eng.computeReads(fn, rs)
 	return rs
 }
@@ -167,7 +186,7 @@ func (eng *Engine) computeReads(fn *ssa.Function, rs *readSet) {
 					continue
 				}
 				if c.IsInvoke() {
-					sub := eng.ifaceReads(c.Value.Type(), c.Method)
+					sub := eng.ifaceReadsL(c.Value.Type(), c.Method)
 					for n := range sub.names {
 						rs.names[n] = true
 					}
@@ -184,7 +203,7 @@ func (eng *Engine) computeReads(fn *ssa.Function, rs *readSet) {
 				if _, isClosure := c.Value.(*ssa.MakeClosure); isClosure {
 					rs.unknown = "closure call"
 				}
-				sub := eng.readsOf(callee)
+				sub := eng.readsOfL(callee)
 				for n := range sub.names {
 					rs.names[n] = true
 				}
@@ -260,7 +279,7 @@ func (eng *Engine) methodOf(t types.Type, m *types.Func) *ssa.Function {
 	return fn
 }
 
-func (eng *Engine) ifaceReads(it types.Type, m *types.Func) *readSet {
+func (eng *Engine) ifaceReadsL(it types.Type, m *types.Func) *readSet {
 	rs := &readSet{names: map[string]bool{}}
 	impls := eng.implementers(it)
 	if len(impls) == 0 {
@@ -276,7 +295,7 @@ func (eng *Engine) ifaceReads(it types.Type, m *types.Func) *readSet {
 			rs.unknown = "method not found"
 			continue
 		}
-		sub := eng.readsOf(fn)
+		sub := eng.readsOfL(fn)
 		for n := range sub.names {
 			rs.names[n] = true
 		}
